@@ -72,7 +72,13 @@ def check_ds(case, ctx):
             return
         model = GlobalHierarchicalModel([{"distribution": WeibullDistribution()}, {"distribution": WeibullDistribution()}])
         before = sample.copy()
-        ok, cont = ctx.call(f"compute:{case['kind']}", DirectSamplingContour, model, alpha, None, deg, sample)
+        # n is documented as the number of points to *simulate*; next to a supplied sample it has no role, whatever
+        # its value (a third of the cases pass one smaller / larger than the sample)
+        n_arg = None
+        if case["seed"] % 3 == 0:
+            n_arg = max(3, len(sample) // 2) if case["seed"] % 2 == 0 else 2 * len(sample)
+        ctx.cls(f"n_next_to_sample={'none' if n_arg is None else ('smaller' if n_arg < len(sample) else 'larger')}")
+        ok, cont = ctx.call(f"compute:{case['kind']}", DirectSamplingContour, model, alpha, n_arg, deg, sample)
         if not ok:
             return
         if not np.array_equal(sample, before):
